@@ -465,3 +465,117 @@ def c01_5(R):
             R.ok("slot=sequence-offset", "add_remove(offset = hdr.seq_nr - (last_consumed + 1)) under offset >= 0")
         else:
             R.fail([pim.name, "add_remove-offset", "shape=%s nonneg-guard=%s" % (okoff, nonneg)], "a packet is handed to the reassembly queue with an offset that is not its sequence distance from the receive cursor, or without rejecting already-consumed (negative) offsets", where=t.where(), instance="slot=sequence-offset")
+
+
+@rule("C01.2", ["C01"], ["E4"], "every transmission addresses the ring by the segment's own (offset, len) and carries that segment's sequence number",
+      "In each of the three send_data! expansions: prepare_2_ioslices is called with (as_slices().0, as_slices().1) of the TX consumer in that order, offset <- payload_offset() and len <- payload_size() "
+      "of the captured segment; header.seq_nr <- seq_nr() of the same captured segment; the IoSlices handed to try_poll_send_to_vectored are [header bytes, result[0], result[1]] in that order and "
+      "total_len = hlen + payload_size(). In Segments::iter_mut_for_sending the yielded payload_offset is payload_offset_absolute.checked_sub(removed_offset) (operand order) and seq_nr is "
+      "snd_una + (offset + idx). The three expansions must agree (sibling check).")
+def c01_2(R):
+    from .c02 import send_data_closures
+    cls = send_data_closures(R)
+    R.floor("send_data! expansions", len(cls), 3)
+    vectors = []
+    for c in cls:
+        v = {}
+        # which upvar is the segment?
+        seg_names = [u for u in c.upvars if not u.startswith("*") and u not in ("header",)]
+        p2 = [t for t in c.calls() if call_matches(t, ("utils::prepare_2_ioslices",))]
+        if len(p2) != 1:
+            R.fail([owner_fn(c), "send_data", "prepare_2_ioslices-calls=%d" % len(p2)], "a send_data! expansion does not call prepare_2_ioslices exactly once", where=c.where(), instance="payload-addressing")
+            continue
+        t = p2[0]
+        a0, a1 = trace(c, t.args[0]), trace(c, t.args[1])
+
+        def slice_idx(tr):
+            if tr.kind == "call" and call_matches(tr.root[1], ("Consumer::as_slices",)) and trace(c, tr.root[1].args[0]).last_field == "UserTx.consumer":
+                tf = [f for f in tr.fields if f.startswith("tuple.")]
+                return tf[0] if tf else None
+            return None
+        v["slices"] = (slice_idx(a0), slice_idx(a1))
+        o, l = trace(c, t.args[2]), trace(c, t.args[3])
+
+        def getter(tr):
+            if tr.kind == "call" and tr.root[1].resolved.startswith("stream_tx_segments::SegmentForSending::"):
+                recv = trace(c, tr.root[1].args[0])
+                return (tr.root[1].resolved.split("::")[-1], recv.root[1] if recv.kind == "upvar" else recv.describe())
+            return (tr.describe()[:40], None)
+        v["offset"] = getter(o)
+        v["len"] = getter(l)
+        # header.seq_nr
+        sq = [s for s in c.stmts() if written_field(c, s) == "UtpHeader.seq_nr"]
+        v["seq"] = getter(trace(c, sq[0].rv.ops[0])) if len(sq) == 1 else ("?", None)
+        # bufs
+        send = [x for x in c.calls() if call_matches(x, ("UtpSocket::try_poll_send_to_vectored",))]
+        order = []
+        total = "?"
+        if len(send) == 1:
+            arr = trace(c, send[0].args[2])
+            if arr.kind == "rv" and arr.root[1].rv.kind == "agg" and arr.root[1].rv.j.get("ak") == "array":
+                for op in arr.root[1].rv.ops:
+                    et = trace(c, op, extra_transparent=("std::io::IoSlice::new", "std::ops::Try::branch", "std::array::index", "std::ops::Index::index"))
+                    if et.kind == "call" and et.root[1] is t:
+                        idx = [p for st in et.steps if isinstance(st, Stmt) and st.rv.ops and st.rv.ops[0].place is not None for p in st.rv.ops[0].place.proj if isinstance(p, list) and p[0] == "ci"]
+                        order.append("result[%s]" % (idx[0][1] if idx else "?"))
+                    elif et.kind in ("rv", "multi", "undef") :
+                        order.append("header-bytes")
+                    else:
+                        order.append(et.describe()[:30])
+            tl = trace(c, send[0].args[4], through_casts=False)
+            if tl.kind == "rv" and tl.root[1].rv.kind == "bin" and tl.root[1].rv.op.startswith("Add"):
+                parts = []
+                for x in tl.root[1].rv.ops:
+                    tx = trace(c, x, extra_transparent=("std::ops::Try::branch",))
+                    parts.append("call:" + short_callee(tx.root[1].resolved) if tx.kind == "call" else tx.describe()[:30])
+                total = "+".join(sorted(parts))
+        v["bufs"] = tuple(order)
+        v["total_len"] = total
+        vectors.append((c, v))
+        seg = v["offset"][1]
+        ok = (v["slices"] == ("tuple.0", "tuple.1") and v["offset"][0] == "payload_offset" and v["len"][0] == "payload_size" and v["seq"][0] == "seq_nr"
+              and seg is not None and v["len"][1] == seg and v["seq"][1] == seg and v["bufs"] == ("header-bytes", "result[0]", "result[1]")
+              and "call:SegmentForSending::payload_size" in v["total_len"] and "serialize" in v["total_len"])
+        if ok:
+            R.ok("payload-addressing", "send_data! expansion (segment `%s`)" % seg, "ring[(as_slices.0, as_slices.1)][payload_offset()..+payload_size()], seq_nr(), bufs in order")
+        else:
+            R.fail([owner_fn(c), "send_data", "addressing", str(sorted((k, str(x)) for k, x in v.items()))[:300]],
+                   "a send_data! expansion addresses the ring or labels the packet with something other than the captured segment's own payload_offset()/payload_size()/seq_nr(), or passes the slices in the wrong order: wrong bytes on the wire for that sequence number",
+                   where=t.where(), instance="payload-addressing")
+    shapes = {str({k: (x if k in ("slices", "bufs", "total_len") else x[0]) for k, x in v.items()}) for c, v in vectors}
+    if len(shapes) == 1:
+        R.ok("siblings-agree", "3 expansions", "identical obligation vectors")
+    else:
+        R.fail(["send_tx_queue", "send_data-expansions-disagree", str(len(shapes))], "the send_data! expansions no longer behave identically", instance="siblings-agree")
+    # the iterator's item
+    clo = [b for b in R.facts.closures_of(SEG + "::iter_mut_for_sending")]
+    done = False
+    for b in clo:
+        for s in b.stmts():
+            if s.rv.kind == "agg" and s.rv.j.get("adt", "").endswith("SegmentForSending"):
+                names = s.rv.j["fields"]
+                po = trace(b, s.rv.ops[names.index("payload_offset")], extra_transparent=("std::option::Option::unwrap", "std::option::Option::expect"))
+                sq = trace(b, s.rv.ops[names.index("seq_nr")])
+                okp = False
+                if po.kind == "call" and call_matches(po.root[1], ("checked_sub",)):
+                    x, y = trace(b, po.root[1].args[0]), trace(b, po.root[1].args[1])
+                    okp = x.last_field == "Segment.payload_offset_absolute" and y.kind == "upvar" and y.root[1] == "removed_abs"
+                oks = False
+                if sq.kind == "call" and call_matches(sq.root[1], ("Add::add",)):
+                    base = trace(b, sq.root[1].args[0])
+                    inc = value_sources(b, sq.root[1].args[1])
+                    oks = base.kind == "upvar" and base.root[1] == "snd_una" and ("upvar", "offset") in inc and any(x[0] == "param" or x[0] == "field" for x in inc)
+                done = True
+                if okp and oks:
+                    R.ok("iterator-item", b.name.split("::{")[0], "payload_offset = payload_offset_absolute - removed_offset; seq_nr = snd_una + (offset + idx)")
+                else:
+                    R.fail([SEG + "::iter_mut_for_sending", "item-shape", "offset-ok=%s seq-ok=%s" % (okp, oks)], "the segment handed to the sender has a payload offset / sequence number computed differently from (absolute offset - removed bytes, snd_una + index)", where=s.where(), instance="iterator-item")
+    R.require(done, "SegmentForSending aggregate in iter_mut_for_sending")
+    it = R.body(SEG + "::iter_mut_for_sending")
+    # removed_abs / snd_una snapshots come from the same-named fields
+    for nm, fld in (("removed_abs", "Segments.removed_offset"), ("snd_una", "Segments.snd_una")):
+        ls = [i for i, l in enumerate(it.locals) if l["name"] == nm]
+        if len(ls) == 1 and isinstance(it.unique_def(ls[0]), Stmt) and trace(it, it.unique_def(ls[0]).rv.ops[0]).last_field == fld:
+            R.ok("iterator-snapshots", nm, "<- " + fld)
+        else:
+            R.fail([it.name, "snapshot", nm], "%s is no longer a snapshot of %s" % (nm, fld), where=it.where(), instance="iterator-snapshots")
